@@ -182,7 +182,7 @@ Section Level2.
     wf_edges tr -> conforms tbl singleton owner pown gate tr ->
     at_ tr i (Acc t o s) -> at_ tr j (Acc t' o s') -> t <> t' ->
     site_at tbl s = Some a -> site_at tbl s' = Some b ->
-    (s_phase a < 2)%N -> (s_phase a < s_phase b)%N ->
+    s_run a = false -> (s_phase a < s_phase b)%N ->
     i < j /\ hb tr i j.
   Proof.
     intros Hwe Hcf Hi Hj Hne Ha Hb Hlt2 Hlt.
@@ -216,30 +216,36 @@ Section Level2.
     unfold pair_ok in Hpo. rewrite Hloc, Hk in Hpo. cbn [negb orb] in Hpo.
     apply orb_true_iff in Hpo. destruct Hpo as [Hpo|Hsingle].
     apply orb_true_iff in Hpo. destruct Hpo as [Hpo|Hlock].
-    apply orb_true_iff in Hpo. destruct Hpo as [Hpa|Hpb].
-    - (* a is an early-phase site *)
-      apply N.ltb_lt in Hpa.
-      destruct (N.lt_trichotomy (s_phase a) (s_phase b)) as [Hlt|[Heq|Hgt]].
-      + apply (gate_order tr i j t t' o s s' a b); assumption.
-      + exfalso. assert (Hpb : (s_phase b < 2)%N) by (rewrite <- Heq; exact Hpa).
-        destruct (cf_early _ _ _ _ _ _ Hcf i t o s a Hi Ha Hpa) as [Et _].
-        destruct (cf_early _ _ _ _ _ _ Hcf j t' o s' b Hj Hb Hpb) as [Et' _].
+    apply orb_true_iff in Hpo. destruct Hpo as [Hpo|Hfba].
+    apply orb_true_iff in Hpo. destruct Hpo as [Hpo|Hfab].
+    apply orb_true_iff in Hpo. destruct Hpo as [Hab|Hba].
+    - (* a is an early site that comes before b *)
+      unfold early_before in Hab. apply andb_true_iff in Hab. destruct Hab as [Hra Hord].
+      apply negb_true_iff in Hra. apply orb_true_iff in Hord. destruct Hord as [Hlt|Hsame].
+      + apply N.ltb_lt in Hlt. apply (gate_order tr i j t t' o s s' a b); assumption.
+      + exfalso. apply andb_true_iff in Hsame. destruct Hsame as [Hrb Heq].
+        apply negb_true_iff in Hrb. apply N.eqb_eq in Heq.
+        destruct (cf_early _ _ _ _ _ _ Hcf i t o s a Hi Ha Hra) as [Et _].
+        destruct (cf_early _ _ _ _ _ _ Hcf j t' o s' b Hj Hb Hrb) as [Et' _].
         apply Hne. rewrite Et, Et', Heq. reflexivity.
-      + exfalso. assert (Hpb : (s_phase b < 2)%N) by (apply N.lt_trans with (s_phase a); assumption).
-        destruct (gate_order tr j i t' t o s' s b a Hwe Hcf Hj Hi (not_eq_sym Hne) Hb Ha Hpb Hgt) as [Hji _].
+    - (* b is an early site that would have to come before a: impossible since i < j *)
+      exfalso.
+      unfold early_before in Hba. apply andb_true_iff in Hba. destruct Hba as [Hrb Hord].
+      apply negb_true_iff in Hrb. apply orb_true_iff in Hord. destruct Hord as [Hlt|Hsame].
+      + apply N.ltb_lt in Hlt.
+        destruct (gate_order tr j i t' t o s' s b a Hwe Hcf Hj Hi (not_eq_sym Hne) Hb Ha Hrb Hlt) as [Hji _].
         lia.
-    - (* b is an early-phase site *)
-      apply N.ltb_lt in Hpb.
-      destruct (N.lt_trichotomy (s_phase b) (s_phase a)) as [Hlt|[Heq|Hgt]].
-      + exfalso.
-        destruct (gate_order tr j i t' t o s' s b a Hwe Hcf Hj Hi (not_eq_sym Hne) Hb Ha Hpb Hlt) as [Hji _].
-        lia.
-      + exfalso. assert (Hpa : (s_phase a < 2)%N) by (rewrite <- Heq; exact Hpb).
-        destruct (cf_early _ _ _ _ _ _ Hcf i t o s a Hi Ha Hpa) as [Et _].
-        destruct (cf_early _ _ _ _ _ _ Hcf j t' o s' b Hj Hb Hpb) as [Et' _].
+      + apply andb_true_iff in Hsame. destruct Hsame as [Hra Heq].
+        apply negb_true_iff in Hra. apply N.eqb_eq in Heq.
+        destruct (cf_early _ _ _ _ _ _ Hcf i t o s a Hi Ha Hra) as [Et _].
+        destruct (cf_early _ _ _ _ _ _ Hcf j t' o s' b Hj Hb Hrb) as [Et' _].
         apply Hne. rewrite Et, Et', Heq. reflexivity.
-      + assert (Hpa : (s_phase a < 2)%N) by (apply N.lt_trans with (s_phase b); assumption).
-        apply (gate_order tr i j t t' o s s' a b); assumption.
+    - (* listed edge a -> final b *)
+      apply edge_covered_hb. exact (cf_final _ _ _ _ _ _ Hcf i j t t' o s s' a b Hi Hj Hne Ha Hb Hloc Hfab).
+    - (* listed edge b -> final a would put j before i *)
+      exfalso. rewrite same_loc_sym in Hloc.
+      pose proof (cf_final _ _ _ _ _ _ Hcf j i t' t o s' s b a Hj Hi (not_eq_sym Hne) Hb Ha Hloc Hfba) as He.
+      destruct He as [p [q [k [ea [eb [_ [_ [H1 [H2 [H3 _]]]]]]]]]]. lia.
     - (* a common lock, exclusive on one side *)
       destruct (common_lock_spec a b Hlock) as [m [x [x' [Hma [Hmb Hx]]]]].
       pose proof (cf_locks _ _ _ _ _ _ Hcf i t o s a m x Hi Ha Hma) as Hh1.
